@@ -1,7 +1,26 @@
 """C16 — device-level histories (see statuslib.py)."""
 from common import *
 import statuslib
-from statuslib import coq_term
+from statuslib import coq_term as _dev_term
+
+
+def coq_term(c): return '"SKIP"' if c.startswith("devrep ") else _dev_term(c)
+
+
+def long_sessions():
+    """sessions longer than any 8/16-bit counter: n failing messages nobody reads, then the queries"""
+    return ["devrep %d %s %s" % (n, hexs(f), hexs(b'*STB?;*ESR?;:SYST:ERR:COUN?')) for n in [1, 255, 256, 257, 511, 512, 65536, 70000] for f in (b"FOO", b"*ESE 256", b"*ERR -350")]
+
+
+def rep_oracle(c, r):
+    f = c.split(" "); n = int(f[1]); code = {b"FOO": -113, b"*ESE 256": -222, b"*ERR -350": -350}[unhex(f[2])]
+    bit = {-113: 32, -222: 16, -350: 8}[code]
+    msgs = {-113: b'-113,"Undefined header"', -222: b'-222,"Data out of range"', -350: b'-350,"Queue overflow"'}
+    q = unhex(f[3])
+    if q.startswith(b"SYST:ERR:COUN?"): want, left = b"%d;" % n + msgs[code] + b"\n", n - 1
+    else: want, left = b"4;%d;%d\n" % (bit, n), n
+    exp = "OK %s qlen=%d esr=%d" % (hexs(want), left, 0 if q.startswith(b"*STB") else bit)
+    return None if r == exp else "after %d failed messages the device answers %s, expected %s" % (n, r[:160], exp[:160])
 
 PID = "C16"
 TARGETS = ["Run.vo", "Contrib_proofs.vo", "ContribMeaning_proofs.vo", "NonVacuous/C16.vo"]
@@ -15,7 +34,19 @@ ASSUMPTIONS = ["device wired as examples/minimal_scpi.rs (the library VecErrorQu
 
 def harness_line(c): return c
 def case_of_line(l): return l
-def obs(s): return s
+def obs(s):
+    if s.startswith(("OK ", "E")) and " qlen=" in s: return s
+    return _obs(s)
+
+
+def _obs(s): return s
+
+
+def impl_oracle(c, r):
+    if r is None: return "no result from harness"
+    if r.startswith(("PANIC", "CRASH", "NOT-RUN", "HANG")) or " PANIC" in r: return "device history panicked / died: " + r[:160]
+    if c.startswith("devrep "): return rep_oracle(c, r)
+    return None
 
 
 def nontrivial(c, impl):
@@ -23,6 +54,7 @@ def nontrivial(c, impl):
 
 
 def distribution(cases, impl):
+    cases = [c for c in cases if not c.startswith("devrep ")]
     steps = sum(c.count("|") + 1 for c in cases)
     fails = sum(r.count(" - q=") for r in impl if r)
     return {"histories": len(cases), "steps": steps, "failed_messages": fails,
@@ -63,6 +95,10 @@ def stb_matrix():
 
 
 def generate(rng, tier):
+    return _generate(rng, tier) + long_sessions()
+
+
+def _generate(rng, tier):
     n = 250 if tier == "quick" else 4000
     return [statuslib.gen_history(rng, rng.choice([4, 8, 16, 30, 40]) if tier == "thorough" else rng.choice([4, 8, 16, 24]),
                                   {"common": 6, "reg": 2, "cond": 2, "fail": 1.5, "tst": 0.3}) for _ in range(n)]
